@@ -6,7 +6,7 @@ virtual paths /repo/cmd/verifdrv/*.go; the binary goes to /verif/cache/bin.
 """
 import json, os, subprocess, sys, glob
 
-VERIF = os.environ.get("VERIF_ROOT", "/verif")
+VERIF = os.environ.get("VERIF_ROOT") or os.path.dirname(os.path.dirname(os.path.abspath(__file__)))
 REPO = os.environ.get("VERIF_REPO", "/repo")
 CACHE = os.path.join(VERIF, "cache")
 
